@@ -19,7 +19,7 @@ def register(PROPS):
         'rule': 'case = one pair of first two events; everything below it is explored exhaustively to the depth bound with a visited table per case; '
                 'states/transitions/traces are summed over cases (a state reached under two different first pairs is counted twice); non-trivial = '
                 'the subtree holds >= 2 distinct states',
-        'bound': {'quick': 'depth 5 at T0 = 2030-01-01 (drift run depth 4; a further run at T0 = 2028-03-01, a leap-year March, depth 4; at T0 = 2037-02-05T06:28:10Z, six seconds before the seconds since 1901 pass 2^32, depth 4; at T0 = 2040-03-01 depth 3); narrow alphabet (one UID, the two- and three-occurrence schedules, ADD/replace, CANCEL, on-time TICK, EXIT) depth 12; the same plus a second UID with six occurrences and MAX-SIMUL 1 (starts with the no-run flag happen legitimately) depth 8; three UIDs whose hashes force the task table to grow by more than double, one schedule each, depth 6; linear histories of 65535, 65536, 65537 and 200 occurrences a minute apart followed to the end (one real start per occurrence, the task gone afterwards)', 'thorough': 'depth 6 (depth 7 ran clean before the alphabet grew by the exception template and the combined tick-and-exit event; drift run depth 5, leap-March and 2037 runs depth 5, 2040 run depth 4), narrow alphabet depth 20'},
+        'bound': {'quick': 'depth 5 at T0 = 2030-01-01 (drift run depth 4; a further run at T0 = 2028-03-01, a leap-year March, depth 4; at T0 = 2037-02-05T06:28:10Z, six seconds before the seconds since 1901 pass 2^32, depth 4; at T0 = 2040-03-01 depth 3); narrow alphabet (one UID, the two- and three-occurrence schedules, the schedule with two EXDATEs, the one whose RRULE and RDATE name one instant twice, ADD/replace, CANCEL, on-time TICK, TICK with a failing start, TICK+EXIT, EXIT) depth 9; the same plus a second UID with six occurrences and MAX-SIMUL 1 (starts with the no-run flag happen legitimately) depth 7; three UIDs whose hashes force the task table to grow by more than double, one schedule each, depth 6; linear histories of 65535, 65536, 65537 and 200 occurrences a minute apart followed to the end (one real start per occurrence, the task gone afterwards)', 'thorough': 'depth 6 (depth 7 ran clean before the alphabet grew by the exception template and the combined tick-and-exit event; drift run depth 5, leap-March and 2037 runs depth 5, 2040 run depth 4), narrow alphabet depth 12 (depths 12 / 20 ran clean with the smaller alphabet of the earlier rounds)'},
         'counter_map': {'states': 'states', 'transitions': 'transitions', 'traces_validated_against_impl': 'traces'},
         'drivers': [
             D('e2_explore', ['prop=C04', 'depth=5', '--case-timeout', '60'], ['prop=C04', 'depth=6', '--case-timeout', '300'], label='depth'),
@@ -29,9 +29,9 @@ def register(PROPS):
             D('e2_explore', ['prop=C04', 'depth=4', 't0=2117428090', '--case-timeout', '60'], ['prop=C04', 'depth=5', 't0=2117428090', '--case-timeout', '300'], label='2^32-s-since-1901'),
             D('e2_explore', ['prop=C04', 'depth=3', 't0=2214172800', '--case-timeout', '60'], ['prop=C04', 'depth=4', 't0=2214172800', '--case-timeout', '300'], label='year-2040'),
             D('e2_explore', ['prop=C04', 'mode=long', '--case-timeout', '300'], label='long-series', shards=4),
-            D('e2_explore', ['prop=C04', 'alpha=narrow2', 'depth=8', '--case-timeout', '120'], ['prop=C04', 'alpha=narrow2', 'depth=10', '--case-timeout', '600'], label='narrow-with-limited-task'),
+            D('e2_explore', ['prop=C04', 'alpha=narrow2', 'depth=7', '--case-timeout', '120'], ['prop=C04', 'alpha=narrow2', 'depth=9', '--case-timeout', '600'], label='narrow-with-limited-task'),
             D('e2_explore', ['prop=C04', 'uids=collide', 'depth=6', '--case-timeout', '120'], ['prop=C04', 'uids=collide', 'depth=8', '--case-timeout', '600'], label='colliding-uids'),
-            D('e2_explore', ['prop=C04', 'alpha=narrow', 'depth=12', '--case-timeout', '120'], ['prop=C04', 'alpha=narrow', 'depth=20', '--case-timeout', '600'], label='narrow-deep'),
+            D('e2_explore', ['prop=C04', 'alpha=narrow', 'depth=9', '--case-timeout', '120'], ['prop=C04', 'alpha=narrow', 'depth=12', '--case-timeout', '600'], label='narrow-deep'),
         ],
         'assumptions': ['a task with nothing left to run (exhausted and fired, or loaded without a future occurrence) may be dropped by the daemon '
                         'at any time; it must be gone once its last job has exited / time has moved on',
@@ -67,7 +67,7 @@ def register(PROPS):
                  '{ADD with owner field absent / = self / = other (as a number and as a user name) / a number that no user has, ADD during which the user data base stops answering at the first or second look-up (one reply, the table consistent with it, the daemon alive), ADD by a peer (uid 4242) whom the user data base does not know with the owner absent / 1000 / alice (must be refused, nothing may change), two instructions in one request, CANCEL (also of unknown and foreign UIDs), '
                  'GET /queue (own and another user\'s), GET /sched, TICK} is executed; the number and kind of REQUEST-STATUS replies, the task '
                  'table with owners, the bodies of the listings (no foreign or stale UID, own queued UIDs present) and the SETUID of every started '
-                 'job are compared with a map<UID, (owner, schedule)> model.  A narrow alphabet (ADD of three UIDs and GET /queue, both peers) reaches depth 6 (thorough 8), including an ADD whose sender has closed its socket before the daemon answers (the failed write must leave nothing behind for the next client on that descriptor), once with peers 1000/1001 and once with 1000/2040 (uids whose highest bits differ: the index over the per-user change notes files them apart); the dirty list enters the canonical state as it is, order and repetitions included.  Linear "busy" histories reach what depth cannot: 17 acknowledged requests between two checkpoints (the 17th by the same or by another user) followed by the listing, and 300 (thorough also 1500) distinct UIDs of one user next to 3 of another in one daemon life - queue files and listings must hold exactly the submitted UIDs, every UID must be cancellable by its owner, nothing may be left; 40 clients connected at the same time (each has sent half of its request when the others send theirs) must each get the reply to their own request and have their task filed under their own uid; requests of 44 instructions (replies beyond 4096 octets) with the first UID growing by one character over 128 rounds must find the status line of every instruction in the reply.  The client side of the listing (c11_echsq: the unmodified echsq.c run in-process, socket()/connect() handed a socketpair whose far end holds a ready-made reply): for every UID length 1..128 (thorough 1..4096) and every number of UIDs from 1 to what fills 3 (thorough 6) requests plus 2, in the forms list / list -u 0 / list --user=1000 / next / list --brief / list --next -u65534 / list with only one of the two daemons there, every request must be a complete "GET /[u/N/]queue|sched?tuid=..&tuid=.. HTTP/1.1" followed by an empty line, of at most 4096 octets, naming at least one UID; the multiset of UIDs asked of each daemon must equal the argument list (a UID never asked for cannot be listed) and echsq must print the replies in order and exit 0 (non-trivial there = the list had to be split over several requests); argument lists that leave fewer than 14 octets free in echsq\'s 4096-octet request buffer are left out (edge=1 puts them in: the unchanged echsq cuts the request line short there and hangs, e.g. echsq list with 582 UIDs of one character).',
+                 'job are compared with a map<UID, (owner, schedule)> model.  A narrow alphabet (ADD of three UIDs and GET /queue, both peers) reaches depth 6 (thorough 8), including an ADD whose sender has closed its socket before the daemon answers (the failed write must leave nothing behind for the next client on that descriptor), once with peers 1000/1001 and once with 1000/2040 (uids whose highest bits differ: the index over the per-user change notes files them apart); the dirty list enters the canonical state as it is, order and repetitions included.  Linear "busy" histories reach what depth cannot: 17 acknowledged requests between two checkpoints (the 17th by the same or by another user) followed by the listing, and 700 (thorough also 1500) distinct UIDs of one user next to 3 of another in one daemon life - queue files and listings must hold exactly the submitted UIDs, every UID must be cancellable by its owner, nothing may be left; 40 clients connected at the same time (each has sent half of its request when the others send theirs) must each get the reply to their own request and have their task filed under their own uid; requests of 44 instructions (replies beyond 4096 octets) with the first UID growing by one character over 128 rounds must find the status line of every instruction in the reply.  The client side of the listing (c11_echsq: the unmodified echsq.c run in-process, socket()/connect() handed a socketpair whose far end holds a ready-made reply): for every UID length 1..128 (thorough 1..4096) and every number of UIDs from 1 to what fills 3 (thorough 6) requests plus 2, in the forms list / list -u 0 / list --user=1000 / next / list --brief / list --next -u65534 / list with only one of the two daemons there, every request must be a complete "GET /[u/N/]queue|sched?tuid=..&tuid=.. HTTP/1.1" followed by an empty line, of at most 4096 octets, naming at least one UID; the multiset of UIDs asked of each daemon must equal the argument list (a UID never asked for cannot be listed) and echsq must print the replies in order and exit 0 (non-trivial there = the list had to be split over several requests); argument lists that leave fewer than 14 octets free in echsq\'s 4096-octet request buffer are left out (edge=1 puts them in: the unchanged echsq cuts the request line short there and hangs, e.g. echsq list with 582 UIDs of one character).',
         'note': E2_NOTE + '  Task oids are 32-bit hashes of the UID; the multi-gigabyte table growth reachable with hashes that agree in 25+ low bits is outside the alphabet.',
         'rule': 'as C04',
         'bound': {'quick': 'depth 4; adds-and-listings lanes depth 6 with two uid pairs; echsq list: every UID length 1..128 x counts up to 3 requests x 8 forms', 'thorough': 'depth 5; adds-and-listings lanes depth 8; echsq list: every UID length 1..4096 x counts up to 6 requests'},
